@@ -20,7 +20,7 @@ def scn_lost(ctx):
     p = ctx.params
     name = p["entry"]
     eps = ctx.eps
-    kinds = p.get("kinds", ["value", "error", "cancel", "through"])
+    kinds = p.get("kinds", ["value", "error", "cancel", "through"] + (["refused-then-cancel"] if p.get("refusal", True) and not name.startswith("stack:") else []))
     kind = kinds[ctx.choice(len(kinds), "kind")]
     e = entries.build(ctx, name)
     f = e.fut
@@ -30,6 +30,18 @@ def scn_lost(ctx):
     cres = []
 
     def completer():
+        if kind == "refused-then-cancel":
+            # a cancel through the derived future is refused by the delegate (not cancellable yet);
+            # later the delegate is cancelled by someone else
+            for d in list(e.inputs) + ([e.inner] if e.inner is not None else []):
+                if isinstance(d, RecFuture):
+                    d.refuse_cancels = 1
+            sched.point()
+            cres.append(f.cancel())
+            sched.point()
+            e.complete("cancel")
+            t_fin[0] = sched.now()
+            return
         if kind == "through":
             sched.point()
             cres.append(f.cancel())
@@ -71,7 +83,9 @@ def scn_lost(ctx):
                   "%s (%s): done at %r, underlying work finished at %r" % (name, kind, t_done[0], t_fin[0]))
         ctx.reach("promptness-checked")
     if ok:
-        exp = e.expect(kind) if kind != "through" else ("cancelled",)
+        exp = e.expect("cancel" if kind == "refused-then-cancel" else kind) if kind != "through" else ("cancelled",)
+        if kind == "refused-then-cancel" and cres and cres[0] is True:
+            exp = ("cancelled",)  # the cancel through the derived future succeeded after all (combinator outputs)
         if exp[0] == "value":
             ctx.check("outcome", fin[0] == "value" and fin[1] == exp[1], "%s: %r, expected %r" % (name, fin, exp))
         elif exp[0] == "error":
